@@ -754,6 +754,95 @@ def caller_arg(c, feats):
     return list(feats)
 
 
+def synthetic_reward_check(c, feats):
+    """(B) for the synthetic entry points, on the public observable only (contexts, actions, rewards): "the simulation's rewards
+    are linear with respect to the requested reward features" - the reward must be an affine function of the monomials of the
+    expansion of the terms and (n_coefficients=None: every weight is drawn) must depend on EVERY one of them.
+    Exact least squares over Fractions. Returns (fails, tags)."""
+    from coba.environments import Environments, LinearSyntheticSimulation
+    nctx, nact = c["nctx"], c["nact"]
+    if nctx == 0 and nact == 0:
+        return [], []
+    drop = "x" if nctx == 0 else "a" if nact == 0 else ""
+    terms = dedupe([t for t in ([f.replace(drop, "") if drop else f for f in feats]) if t])
+    if not terms or any(ch not in "xa" for t in terms for ch in t):
+        return [], []
+    sizes = {"x": nctx, "a": nact}
+    # the distinct monomials (as multisets of features) of the expansion, in order of first appearance
+    idents = []
+    for t in terms:
+        lists = [list(itertools.combinations_with_replacement([(ns, i) for i in range(sizes[ns])], p)) for ns, p in factors(t)]
+        for combo in itertools.product(*lists):
+            ident = tuple(sorted(i for part in combo for i in part))
+            if ident not in idents:
+                idents.append(ident)
+    k = len(idents)
+    if k == 0 or k > 24:
+        return [], ["synthetic-reward:skipped(k=%d)" % k]
+    n_actions = 2
+    n_int = (k + 6) // (n_actions if nact else 1) + 2
+    arg = caller_arg(c, feats)
+    kw = dict(n_actions=n_actions, n_context_features=nctx, n_action_features=nact, n_coefficients=None, reward_features=arg)
+    try:
+        with capped_memory():
+            if c["kind"] == "synthetic_env":
+                seed = c.get("seeds", [c.get("seed", 1)])[0] if isinstance(c.get("seeds"), list) else c.get("seed", 1)
+                inters = list(Environments.from_linear_synthetic(n_int, seed=seed, **kw)[0].read())
+            else:
+                inters = list(LinearSyntheticSimulation(n_int, seed=c.get("seed", 1), **kw).read())
+    except Exception as e:
+        return [], ["synthetic-reward:raised(%s)" % type(e).__name__]
+    groups = {}
+    for it in inters:
+        x = it["context"] or []
+        rs = it["rewards"]
+        rs = [rs(a) for a in it["actions"]] if callable(rs) else list(rs)
+        for j, (a, r) in enumerate(zip(it["actions"], rs)):
+            val = {"x": [Fraction(v) for v in x], "a": [Fraction(v) for v in a] if nact else []}
+            row = [Fraction(1)] + [prod(val[ns][i] for ns, i in ident) for ident in idents]
+            groups.setdefault(0 if nact else j, []).append((row, Fraction(r)))
+    call = "%s(n_context_features=%d, n_action_features=%d, n_coefficients=None, reward_features=%r)" % (
+        "Environments.from_linear_synthetic" if c["kind"] == "synthetic_env" else "LinearSyntheticSimulation", nctx, nact, arg)
+    fails = []
+    for g, rows in sorted(groups.items()):
+        n = k + 1
+        if len(rows) < n + 2:
+            continue
+        # normal equations, solved exactly
+        M = [[sum(r[i] * r[j] for r, _ in rows) for j in range(n)] + [sum(r[i] * y for r, y in rows)] for i in range(n)]
+        ok = True
+        for col in range(n):
+            piv = next((r for r in range(col, n) if M[r][col] != 0), None)
+            if piv is None:
+                ok = False
+                break
+            M[col], M[piv] = M[piv], M[col]
+            inv = 1 / M[col][col]
+            M[col] = [v * inv for v in M[col]]
+            for r in range(n):
+                if r != col and M[r][col] != 0:
+                    f = M[r][col]
+                    M[r] = [a - f * b for a, b in zip(M[r], M[col])]
+        if not ok:
+            continue
+        coef = [M[i][n] for i in range(n)]
+        scale = max(abs(y) for _, y in rows) + 1
+        resid = max(abs(sum(cj * rj for cj, rj in zip(coef, r)) - y) for r, y in rows)
+        if resid > Fraction(1, 10 ** 8) * scale:
+            fails.append(F("B", "%s: the rewards are not an affine function of the %d monomials of the expansion of %r (least-squares residual %.3g)"
+                           % (call, k, terms, float(resid)), "synthetic-reward-not-affine"))
+            break
+        big = max(abs(cj) for cj in coef[1:])
+        dead = [idents[i] for i in range(k) if abs(coef[i + 1]) <= Fraction(1, 10 ** 7) * big]
+        if dead:
+            name = lambda ident: "*".join("%s%d" % (ns, i) for ns, i in ident)
+            fails.append(F("B", "%s: the rewards do not depend on %d of the %d monomials of the expansion of %r (e.g. %s): every weight is drawn with "
+                           "n_coefficients=None, so every monomial must count" % (call, len(dead), k, terms, ", ".join(name(d) for d in dead[:4])),
+                           "synthetic-reward-ignores-monomials"))
+            break
+    return fails, ["synthetic-reward:checked"]
+
+
 def canon_terms(ts):
     """multiset of term-list entries (Python sets have no order; 1 == 1.0)"""
     return sorted(("t", t) if isinstance(t, str) else ("n", str(Fraction(t))) for t in ts)
@@ -805,7 +894,8 @@ class C20(Property):
             "Environments.from_linear_synthetic (one or several seeds) - with the term argument in every accepted shape (list, tuple, a bare "
             "str = ONE term, numeric constants, defaults), random contexts and "
             "feature counts and compare the term list they hand to the encoder with learnerTerms / syntheticTerms, and judge every encode "
-            "call they make; 3% of the cases check the float multiplication law itself on random doubles with Fractions; learner cases with an empty "
+            "call they make; 3% of the cases check the float multiplication law itself on random doubles with Fractions; for the synthetic entry points the rewards of the generated environment "
+            "are fitted exactly (Fractions) against the monomials of the expansion: affine, and every monomial counts; learner cases with an empty "
             "context are re-run under several PYTHONHASHSEEDs; the model's `normalise` (argument shapes) is compared with the spied encoder "
             "terms; dense lengths are checked against the binomial formula independently of the values; non-trivial = at least one term and at least 3 expected entries; distinct by canonical JSON of the case")
     trusted_base = [
@@ -1345,6 +1435,12 @@ class C20(Property):
             {"caller": {"kind": "synthetic_env", "features": None, "nctx": 2, "nact": 2, "seed": 1}},
             {"caller": {"kind": "synthetic_env", "features": ["xa"], "shape": "str", "nctx": 0, "nact": 2, "seed": 1}},
             {"caller": {"kind": "synthetic", "features": ["xa"], "shape": "str", "nctx": 2, "nact": 2, "seed": 1}},
+            # the rewards depend on every monomial of repeated-namespace terms (seeded round c20e: em3)
+            {"caller": {"kind": "synthetic", "features": ["xxa"], "shape": "list", "nctx": 3, "nact": 2, "seed": 1}},
+            {"caller": {"kind": "synthetic_env", "features": ["xx"], "shape": "str", "nctx": 2, "nact": 2, "seed": 2}},
+            {"caller": {"kind": "synthetic", "features": ["a", "xa", "xxx", "aa"], "shape": "tuple", "nctx": 3, "nact": 2, "seed": 3}},
+            {"caller": {"kind": "synthetic", "features": ["xx", "x"], "shape": "list", "nctx": 3, "nact": 0, "seed": 1}},
+            {"caller": {"kind": "synthetic", "features": ["xaa", "a"], "shape": "list", "nctx": 0, "nact": 3, "seed": 1}},
             {"caller": {"kind": "linucb", "features": [one, "a", "ax"], "shape": "tuple", "context": P(2, 3), "actions": [P(5, 7), P(11, 13)]}},
             {"caller": {"kind": "lints", "features": [one, "a", "xxa"], "shape": "tuple", "context": {"k": "none"}, "actions": [P(5), P(11)]}},
             # histories on one encoder object (minimised seeded mutants m2-m4 of round c20b)
@@ -1487,6 +1583,19 @@ class C20(Property):
             tags.append("caller:default-features")
         if derived and any(isinstance(t, str) and t == "" for t in eff):
             fails.append(F("B", "%s built the term list %r for InteractionsEncoder: it contains a term naming no namespace" % (c["kind"], eff), "caller-empty-term"))
+        if syn:
+            feats_py = ([t for t in rec[0]["terms"]] if c.get("features") is None else [t for t in c["features"]])
+            if c.get("features") is None:
+                # the default reward_features: take them from the simulation itself (params), not from the spied encoder
+                try:
+                    import coba.environments.synthetics as _syn
+                    feats_py = list(_syn.LinearSyntheticSimulation(1).params["reward_features"])
+                except Exception:
+                    pass
+            if all(isinstance(t, str) for t in feats_py):
+                rf, rt = synthetic_reward_check(c, feats_py)
+                fails += rf
+                tags += rt
         ncalls = 0
         for r in rec:
             for kw, res in r["calls"]:
@@ -1775,6 +1884,9 @@ class C20(Property):
                 return ("import sys; sys.path.insert(0, %r)\nimport coba.environments.synthetics as m\nfrom coba.environments import Environments\n"
                         "class Rec(m.InteractionsEncoder):\n    def __init__(self, i): print('encoder terms:', list(i)); super().__init__(i)\n"
                         "m.InteractionsEncoder = Rec\nlist(%s)\n# the terms passed: %r (a bare str is one term)\n"
+                        "# the rewards must be an affine function of ALL monomials of the expansion of these terms (combinations WITH repetition\n"
+                        "# per namespace, outer product across namespaces) - fit rewards ~ 1 + monomials(context, action) over enough interactions\n"
+                        "# (harness: synthetic_reward_check) and look for coefficients that vanish\n"
                         % (os.environ.get("COBA_REPO", "/repo"), call, feats))
             return ("import sys; sys.path.insert(0, %r)\nimport coba.learners.%s as m   # needs numpy (the harness stubs it)\n"
                     "class Rec(m.InteractionsEncoder):\n    def __init__(self, i): print('terms', list(i)); super().__init__(i)\n"
